@@ -4,8 +4,15 @@ proof  : coq/Props/C19.v  (decode_encode, decode_total, decode_no_crash over Mod
 tie    : T  Gen/CodecFrames.v regenerated from ast/codec/codec.go
          C  extracted model (build/modelrun_codec) vs real codec (build/implrun codec):
             Encode bytes, Decode result on valid encodings, truncations, bit flips, splices, random bytes
+         wf: the extracted checker wfb_block (C19_wfb_sound/_complete) is run on every AST the REAL parser
+            produced: `wf 1` is required (the round-trip theorem covers it), except exactly the known finding
+         plugin path: Encoder.Encode(stmt) bytes vs encode1; plugin.ReadLinterRequest[T] for EVERY T of the
+            LintStatement union vs read_request, on single-statement encodings and on mutated byte strings;
+            end to end through linter.customLint -> plugin process (falco-verifecho = implrun codecplug-echo)
+         T  Gen/CodecPlugin.v regenerated from plugin/linter.go, ast/*.go, linter/linter.go, ast/codec/encoder.go
 oracle : on the implementation alone: decode(encode(parse src)) == parse src (projected), decode never
-         panics / hangs on any byte string.
+         panics / hangs on any byte string; ReadLinterRequest[T](Encode(s)) is s for T = type of s and a
+         LinterRequestError naming the type for every other T.
 """
 import os
 import random
@@ -41,6 +48,10 @@ def big_sources(rng):
     out = []
     for n in (65535, 65536, 70000, 200000):
         out.append(("snippet", ('set req.http.X = "%s";' % ("a" * n)).encode(), "leaf%d" % n))
+    # INTEGER / FLOAT frames carry 8 value bytes + the source literal: payload 65535 (fits) and 65536 (does not)
+    out.append(("snippet", ("set var.f = 1.%s;" % ("0" * 65525)).encode(), "float-literal-65527"))
+    out.append(("snippet", ("set var.f = 1.%s;" % ("0" * 65526)).encode(), "float-literal-65528"))
+    out.append(("snippet", ("set var.i = %s1;" % ("0" * 65527)).encode(), "int-literal-65528"))
     out.append(("snippet", ("if (req.http.A) { " + 'set req.http.X = "abcdefghijklmnopqrstuvwxyz0123456789";' * 300 + " }").encode(), "block-10k"))
     out.append(("vcl", ("sub vcl_recv { " + "".join('set req.http.X%d = "%s";' % (i, "v" * (i % 97)) for i in range(400)) + " }").encode(), "sub-4k-boundaries"))
     return out
@@ -50,6 +61,7 @@ KIND_CORPUS = [
     ("snippet", 'set req.http.A = "x";'), ("snippet", 'set var.i += 10;'), ("snippet", 'add resp.http.Set-Cookie = "a" "b";'),
     ("snippet", 'unset req.http.A;'), ("snippet", 'remove req.http.A;'), ("snippet", 'declare local var.s STRING;'),
     ("snippet", 'call f;'), ("snippet", 'call f(1, "a", req.http.B);'), ("snippet", 'error;'), ("snippet", 'error 404;'),
+    ("snippet", 'error "x";'),      # rejected by the parser today; if it were accepted the AST (no code, an argument) is outside wf
     ("snippet", 'error 601 "x" + req.url;'), ("snippet", 'esi;'), ("snippet", 'log "a" req.url 10 1.5 10s true;'), ("snippet", 'restart;'),
     ("snippet", 'return;'), ("snippet", 'return (lookup);'), ("snippet", 'return var.s;'), ("snippet", 'synthetic {"x"};'),
     ("snippet", 'synthetic.base64 "eA==";'), ("snippet", 'std.log("a", 1);'), ("snippet", 'goto l1;\nl1:\n'), ("snippet", 'include "m";'),
@@ -179,9 +191,92 @@ def mutate(rng, hx, donors):
 
 
 def leaf_over_64k(ast_sexp):
-    """does the statement contain a leaf string whose UTF-8 payload is >= 65536 bytes?"""
+    """does the statement contain a leaf frame whose payload is >= 65536 bytes?  (string / ident / operator:
+    the UTF-8 bytes; INTEGER / FLOAT: 8 value bytes + the source literal)"""
     import re
-    return any(len(m) // 2 >= 65536 for m in re.findall(r'"([0-9a-f]*)"', ast_sexp))
+    if any(len(m) // 2 >= 65536 for m in re.findall(r'"([0-9a-f]*)"', ast_sexp)):
+        return True
+    return any(8 + len(m) // 2 >= 65536 for m in re.findall(r'\((?:int|float|m) x[0-9a-f]+ "([0-9a-f]*)"\)', ast_sexp))
+
+
+# sexp head of a projected statement -> Go type name (reflect name ReadLinterRequest reports)
+HEAD_TYPE = {
+    "acl": "AclDeclaration", "backend": "BackendDeclaration", "director": "DirectorDeclaration", "table": "TableDeclaration",
+    "sub": "SubroutineDeclaration", "penaltybox": "PenaltyboxDeclaration", "ratecounter": "RatecounterDeclaration",
+    "block": "BlockStatement", "import": "ImportStatement", "include": "IncludeStatement", "declare": "DeclareStatement",
+    "set": "SetStatement", "unset": "UnsetStatement", "remove": "RemoveStatement", "if": "IfStatement", "switch": "SwitchStatement",
+    "restart": "RestartStatement", "esi": "EsiStatement", "add": "AddStatement", "call": "CallStatement", "error": "ErrorStatement",
+    "log": "LogStatement", "return": "ReturnStatement", "synthetic": "SyntheticStatement", "synthetic64": "SyntheticBase64Statement",
+    "goto": "GotoStatement", "gotodest": "GotoDestinationStatement", "funcall": "FunctionCallStatement",
+    "break": "BreakStatement", "fallthrough": "FallthroughStatement", "case": "CaseStatement",
+}
+NOT_LINTABLE = {"BreakStatement", "FallthroughStatement", "CaseStatement"}   # replaced in run() by: statement types outside the regenerated union
+# statement nodes (*Linter).lint is never handed (lintCaseStatement / lintIfStatement walk them directly;
+# include statements are replaced by resolveIncludeStatements before the statements of a block are linted)
+E2E_NOT_VISITED = ("BreakStatement", "FallthroughStatement", "CaseStatement", "IfStatement(", "IncludeStatement")
+
+E2E_TEXT = [
+    b"""// @plugin: verifecho
+sub vcl_recv { #FASTLY recv
+ // @plugin: verifecho arg1 arg2
+ if (req.http.A) {
+   # @plugin: verifecho
+   esi;
+ }
+ /* @plugin: verifecho */
+ set req.http.X = "y" + req.http.B;
+ // @plugin:verifecho
+ error;
+ return (pass); }
+// @plugin: verifecho
+acl a { "10.0.0.0"/8; }
+""",
+    b"""sub f(STRING a, INTEGER b) BOOL {
+ // @plugin: verifecho
+ // @plugin: verifecho again
+ call g(1, "x");
+ # @plugin: verifecho
+ return true; }
+sub g { }
+""",
+]
+
+
+def lint_statement_types():
+    import re
+    txt = open(os.path.join(V.COQ, "Gen", "CodecPlugin.v")).read()
+    m = re.search(r"Definition lint_statement_types : list string := \[(.*?)\]\.", txt)
+    return re.findall(r'"([^"]*)"', m.group(1)) if m else []
+
+
+def expected_plug(ast, not_lintable):
+    """what every instantiation of ReadLinterRequest must answer on Encode(s), from s alone"""
+    import re
+    k = HEAD_TYPE.get(re.match(r"\((\w+)", ast).group(1), "?")
+    if k in not_lintable:
+        return "none | rest type:" + k
+    return "ok %s %s | rest type:%s" % (k, ast, k)
+
+
+def par_batch(cmd, reqs, parts, min_n=64, **kw):
+    """V.run_batch over `parts` contiguous chunks, one process each, in parallel: same replies in the same order
+    (only for commands without per-process state)"""
+    if parts <= 1 or len(reqs) < min_n:
+        return V.run_batch(cmd, reqs, **kw)
+    import concurrent.futures as cf
+    size = (len(reqs) + parts - 1) // parts
+    chunks = [reqs[i:i + size] for i in range(0, len(reqs), size)]
+    with cf.ThreadPoolExecutor(len(chunks)) as ex:
+        outs = list(ex.map(lambda c: V.run_batch(cmd, c, **kw), chunks))
+    return [r for o in outs for r in o]
+
+
+def both(f, g):
+    """run two batch jobs side by side"""
+    import concurrent.futures as cf
+    with cf.ThreadPoolExecutor(2) as ex:
+        a, b = ex.submit(f), ex.submit(g)
+        return a.result(), b.result()
 
 
 def run(ctx):
@@ -197,6 +292,10 @@ def run(ctx):
         "extraction: ExtrOcamlBasic only, no Extract Constant/Inductive beyond it; OCaml 4.13.1; ocaml/common.ml + ocaml/codec_main.ml (S-expression glue)",
         "translator harness/cmd/trans (FrameType iota block -> Gen/CodecFrames.v)",
         "harness/cmd/implrun codec.go (projection of the Go AST onto Model/CodecAst.v: names, operators, literal values, arguments, parameters, nested statements)",
+        "harness/cmd/implrun codec_plugin.go (one ReadLinterRequest instantiation per member of LintStatement, compared with the regenerated union; "
+        "classification of LinterRequestError by its three message shapes; falco-verifecho plugin = implrun codecplug-echo)",
+        "translator harness/cmd/trans codec_plugin.go (LintStatement union, Statement() receivers, type switches of Linter.lint / Encoder.encode -> Gen/CodecPlugin.v)",
+        "Model/CodecPlugin.v read_request is a hand transcription of plugin/linter.go ReadLinterRequest (os.Args not modelled), tied by the differential run",
         "modelled not verified: Model/Codec.v is a hand transcription of ast/codec/*.go, tied by the differential run below",
         "Go strings are compared as the rune sequence `range s` yields (what stringToBytes encodes)",
     ]
@@ -214,6 +313,15 @@ def run(ctx):
             sources.append(("snippet", g.snippet().encode(), "gen-snippet-%d" % i))
         else:
             sources.append(("vcl", g.program().encode(), "gen-vcl-%d" % i))
+    # --replay <file>: only the recorded program / byte string (the seeded corpus run is reproducible from the seed anyway)
+    rp = None
+    if ctx.replay:
+        import json
+        rp = json.load(open(ctx.replay)).get("replay", {})
+        if rp.get("source_hex"):
+            sources = [(rp.get("mode", "snippet"), bytes.fromhex(rp["source_hex"]), "replay")]
+        elif rp.get("bytes_hex") is not None:
+            sources = [(m, src.encode(), "kind-%d" % i) for i, (m, src) in enumerate(KIND_CORPUS)]
     reqs = ["src %s %s" % (m, s.hex()) for m, s, _ in sources]
     irep = V.run_batch(impl, reqs, hang_s=10)
 
@@ -242,18 +350,31 @@ def run(ctx):
                           {"kind": "held-result"})
     # model: encode the same ASTs
     mreq = ["enc " + c[1] for c in cases]
-    mrep = V.run_batch([model], mreq, hang_s=60, mem_kb=8_000_000)
+    mrep = par_batch([model], mreq, 4, hang_s=60, mem_kb=8_000_000)
     import re
     valid_encs = []
     kind_encs = []
     roundtrip_ok = 0
     enc_agree = 0
+    wf_ok = 0
     nontrivial = set()
     for c, mr in zip(cases, mrep):
         label, ast, ienc, idec, m, s = c
         for k in re.findall(r"\((\w+)", ast):
             kinds[k] = kinds.get(k, 0) + 1
         facts = {"kind": "leaf-over-64k"} if leaf_over_64k(ast) else {}
+        mr, _, wf = (mr or "").partition(" | wf ")
+        # the hypothesis of C19_decode_encode, decided by the extracted wfb_block on what the parser produced
+        if facts:
+            if wf != "0 model":
+                ctx.violation("a statement list with a leaf >= 64 KiB is reported `wf %s` by the extracted checker (%s)" % (wf, label),
+                              {"mode": m, "source_hex": s.hex()[:4000], "ast": ast[:2000]})
+        elif wf != "1":
+            ctx.violation("the parser produced an AST outside the well-formedness hypothesis of the round-trip theorem "
+                          "(wfb_block: wf %s): the theorem does not cover %s" % (wf, label),
+                          {"mode": m, "source_hex": s.hex()[:4000], "ast": ast[:2000], "wf": wf})
+        else:
+            wf_ok += 1
         if ienc is None:
             if mr != "err":
                 ctx.violation("Encode: implementation returns an error, model says %s (%s)" % (mr[:80], label),
@@ -280,6 +401,9 @@ def run(ctx):
     # ---------------- decoder totality + correspondence on arbitrary bytes
     n_mut = 120000 if thorough else 14000
     byte_cases = [(h, lab) for h, lab in corpus_bytes()]
+    if rp and rp.get("bytes_hex") is not None:
+        byte_cases.append((rp["bytes_hex"], "replay"))
+        n_mut = 0
     byte_cases += [(h, "valid") for h in valid_encs[:2000]]
     small = [h for h in valid_encs if len(h) < 1200] or valid_encs
     mk = {}
@@ -300,8 +424,8 @@ def run(ctx):
     for _, kind in byte_cases:
         mk[kind] = mk.get(kind, 0) + 1
     dreq = ["dec " + h for h, _ in byte_cases]
-    irep2 = V.run_batch(impl, dreq, hang_s=5)
-    mrep2 = V.run_batch([model], dreq, hang_s=60, mem_kb=8_000_000)
+    irep2, mrep2 = both(lambda: par_batch(impl, dreq, 2, hang_s=5),
+                        lambda: par_batch([model], dreq, 6, hang_s=60, mem_kb=8_000_000))
     outcome = {"ok": 0, "err": 0}
     dec_agree = 0
     for (h, kind), ir, mr in zip(byte_cases, irep2, mrep2):
@@ -315,6 +439,190 @@ def run(ctx):
                           {"bytes_hex": h[:4000], "impl": ir[:2000], "model": (mr or "")[:2000]})
         else:
             dec_agree += 1
+    # ---------------- the plugin path: Encoder.Encode(stmt) -> ReadLinterRequest[T]
+    import re as _re
+    pimpl = [os.path.join(V.BUILD, "implrun"), "codecplug"]
+    readers = (V.run_batch(pimpl, ["readers"], hang_s=10)[0] or "").split()
+    union = lint_statement_types()
+    not_lintable = set(HEAD_TYPE.values()) - set(union)     # statically: NOT_LINTABLE (theorem C19_plugin_kinds, last clause)
+    if readers != union:
+        ctx.violation("the LintStatement union of plugin/linter.go is not the set of ReadLinterRequest instantiations the harness runs",
+                      {"no_failing_input": True, "union": union, "harness": readers})
+    n_psrc = 1500 if thorough else 260
+    per_src = 200 if thorough else 40
+    fixed_src = [(m, s_, lab) for (m, s_, lab) in sources if lab.startswith(("kind-", "corpus/")) and len(s_) < 20000]
+    other_src = [(m, s_, lab) for (m, s_, lab) in sources if not lab.startswith(("kind-", "corpus/", "leaf", "float-", "int-", "block-", "sub-4k", "longleaf", "deep-")) and len(s_) < 20000]
+    psources = fixed_src + rng.sample(other_src, min(len(other_src), n_psrc))
+    prep = par_batch(pimpl, ["src1 %s %s %d" % (m, s_.hex() or "-", per_src) for m, s_, _ in psources], 4, hang_s=20)
+    singles = {}          # ast -> (enc hex | None, impl plug reply, label, mode, source)
+    stmt_nodes = 0
+    for (m, s_, lab), rep in zip(psources, prep):
+        if rep is None or rep.startswith(("hang", "died", "crash")):
+            ctx.violation("Encode / ReadLinterRequest of the statements of a valid program: %s (%s)" % ((rep or "no reply")[:120], lab),
+                          {"mode": m, "source_hex": s_.hex()[:4000], "reply": rep}, {"kind": "plugin-" + (rep or "none").split()[0]})
+            continue
+        if rep.startswith("parseerr"):
+            continue
+        items = rep.split(" || ")
+        if not _re.match(r"n \d+$", items[0]):
+            ctx.violation("unreadable reply of the plugin-path harness (%s): %s" % (lab, rep[:200]), {"mode": m, "source_hex": s_.hex()[:4000], "reply": rep[:500]})
+            continue
+        stmt_nodes += int(items[0].split()[1])
+        for it in items[1:]:
+            f = it.split(" ; ")
+            a = f[0][4:]
+            if a in singles:
+                continue
+            if f[1] == "encerr":
+                singles[a] = (None, None, lab, m, s_)
+                continue
+            if f[-1] != "same":
+                ctx.violation("Encoder.Encode(s) and Encoder.Encodes([s]) return different bytes (%s)" % lab,
+                              {"mode": m, "source_hex": s_.hex()[:4000], "statement": a[:2000], "encode": f[1][4:][:2000]}, {"kind": "encode-vs-encodes"})
+            singles[a] = (f[1][4:], f[2][5:], lab, m, s_)
+    plug_kinds = {}
+    plug_oracle_ok = 0
+    single_encs = {}      # Go type -> a single-statement encoding
+    items = list(singles.items())
+    mrep_e, mrep_p = both(lambda: par_batch([model], ["enc1 " + a for a, _ in items], 2, hang_s=60, mem_kb=8_000_000),
+                          lambda: par_batch([model], ["plug " + (v[0] or "") for _, v in items], 2, hang_s=60, mem_kb=8_000_000))
+    enc1_agree = plug_agree = 0
+    import re as _re
+    for (a, (enc1, iplug, lab, m, s_)), me, mp in zip(items, mrep_e, mrep_p):
+        big = {"kind": "leaf-over-64k"} if leaf_over_64k(a) else None
+        replay = {"mode": m, "source_hex": s_.hex()[:4000], "statement": a[:2000]}
+        me, _, wf = (me or "").partition(" | wf ")
+        if (wf != "1") != bool(big):
+            ctx.violation("a statement the parser produced is outside the hypothesis of C19_plugin_roundtrip (wfb_stmt: wf %s) in %s" % (wf, lab),
+                          dict(replay, wf=wf), big)
+        if enc1 is None:
+            if me != "err":
+                ctx.violation("Encoder.Encode returns an error, encode1 of the model says %s (%s)" % (me[:80], lab), replay, big)
+            continue
+        if me != "enc " + enc1:
+            ctx.violation("Encoder.Encode(stmt) bytes differ from encode1 of Model/CodecPlugin.v (%s)" % lab,
+                          dict(replay, impl=enc1[:2000], model=me[:2000]), big)
+        else:
+            enc1_agree += 1
+        k = HEAD_TYPE.get(_re.match(r"\((\w+)", a).group(1), "?")
+        plug_kinds[k] = plug_kinds.get(k, 0) + 1
+        # direct oracle on the implementation: every instantiation of ReadLinterRequest on Encode(s)
+        if iplug != expected_plug(a, not_lintable):
+            ctx.violation("plugin.ReadLinterRequest on Encoder.Encode(s): expected the statement for T = %s and a type error for every other T (%s)" % (k, lab),
+                          dict(replay, bytes_hex=enc1[:2000], got=(iplug or "")[:2000], expected=expected_plug(a, not_lintable)[:2000]),
+                          big or {"kind": "plugin-roundtrip"})
+        else:
+            plug_oracle_ok += 1
+        if iplug != mp:
+            ctx.violation("ReadLinterRequest result differs between plugin/linter.go and read_request of Model/CodecPlugin.v on Encode(s) (%s)" % lab,
+                          dict(replay, bytes_hex=enc1[:2000], impl=(iplug or "")[:2000], model=(mp or "")[:2000]), big)
+        else:
+            plug_agree += 1
+        if len(enc1) < 500 and (k not in single_encs or len(enc1) > len(single_encs[k])) and not big:
+            single_encs[k] = enc1
+    for k in sorted(set(HEAD_TYPE.values())):
+        if plug_kinds.get(k, 0) == 0 and not rp:
+            ctx.violation("no statement of kind %s reached the plugin-path correspondence (generator / corpus lost a kind)" % k,
+                          {"no_failing_input": True, "kinds": plug_kinds})
+    # ReadLinterRequest on arbitrary bytes: mutants of one single-statement encoding per kind + a sample of the decoder inputs
+    pbytes = []
+    donors = list(single_encs.values())
+    fin_hex = "%02x" % ft["FIN"]
+    end_hex = "%02x" % ft["END"]
+    for k, h in sorted(single_encs.items()):
+        for i in range(0, len(h) + 2, 2):
+            pbytes.append((h[:i], "prefix"))
+        pbytes.append((h[:-2], "no-fin"))
+        pbytes.append((h[:-2] + rng.choice(donors), "two-statements"))
+        pbytes.append((fin_hex + h, "fin-first"))
+        pbytes.append((end_hex + h, "end-first"))
+        pbytes += structural_mutants(h, ft, rng, 600 if thorough else 90)
+        for _ in range(400 if thorough else 30):
+            pbytes.append(mutate(rng, h, donors))
+    pbytes += rng.sample(byte_cases, min(len(byte_cases), 20000 if thorough else 1500))
+    if rp and rp.get("bytes_hex") is not None:
+        pbytes = [(rp["bytes_hex"], "replay")]
+    pbytes = list(dict.fromkeys(pbytes))
+    preq = ["plug " + h for h, _ in pbytes]
+    # a decoder that already hung / died in the Decode stage would make every chunk wait for its watchdog again
+    # (same decoder underneath): the finding is recorded, keep this stage short
+    decoder_stuck = sum(1 for r in irep2 if r is None or r.startswith(("hang", "died", "skipped"))) > 0
+    if decoder_stuck:
+        pbytes = pbytes[:400]
+        preq = preq[:400]
+    iprep, mprep = both(lambda: (V.run_batch(pimpl, preq, hang_s=5, max_failures=2, confirm_hangs=False) if decoder_stuck
+                                 else par_batch(pimpl, preq, 6, hang_s=5)),
+                        lambda: par_batch([model], preq, 2, hang_s=60, mem_kb=8_000_000))
+    plug_out = {"request": 0, "decode": 0, "empty": 0, "type": 0}
+    plug_bytes_agree = 0
+    for (h, kind), ir, mr in zip(pbytes, iprep, mprep):
+        if ir is None or ir.startswith(("hang", "died", "crash")) or " | rest " not in ir:
+            ctx.violation("ReadLinterRequest %s on a byte string (%s): %s" % ((ir or "no reply").split()[0], kind, (ir or "")[:120]),
+                          {"bytes_hex": h[:4000], "impl": ir, "model": (mr or "")[:500]}, {"kind": "plugin-" + (ir or "none").split()[0]})
+            continue
+        head, _, rest = ir.partition(" | rest ")
+        # a request or a LinterRequestError of one of the three documented shapes, the same for every T but the matching one
+        shapes = rest.split(",") if rest else []
+        if any(not (x in ("decode", "empty") or x.startswith("type:")) for x in shapes) or len(shapes) > 1 or head.count("ok ") > 1:
+            ctx.violation("ReadLinterRequest returned neither a request nor a LinterRequestError of a documented shape (%s input)" % kind,
+                          {"bytes_hex": h[:4000], "impl": ir[:2000]}, {"kind": "plugin-shape"})
+        plug_out["request" if head != "none" else (shapes[0].split(":")[0] if shapes else "type")] += 1
+        if ir != mr:
+            ctx.violation("ReadLinterRequest result differs between plugin/linter.go and Model/CodecPlugin.v (%s input)" % kind,
+                          {"bytes_hex": h[:4000], "impl": ir[:2000], "model": (mr or "")[:2000]})
+        else:
+            plug_bytes_agree += 1
+    # end to end: the real linter hands every statement to customLint, which pipes Encode(stmt) to the plugin process
+    pdir = os.path.join(V.BUILD, "plugins")
+    os.makedirs(pdir, exist_ok=True)
+    script = "#!/bin/sh\nexec %s codecplug-echo \"$@\"\n" % os.path.join(V.BUILD, "implrun")
+    sp = os.path.join(pdir, "falco-verifecho")
+    if not os.path.exists(sp) or open(sp).read() != script:
+        with open(sp, "w") as fh:
+            fh.write(script)
+        os.chmod(sp, 0o755)
+    vcl_src = [(s_, lab) for (m, s_, lab) in sources if m == "vcl" and len(s_) < 6000 and not lab.startswith(("sub-4k",))]
+    fixed_e2e = [(s_, lab) for (s_, lab) in vcl_src if lab.startswith(("kind-", "corpus/"))]
+    rest_e2e = [(s_, lab) for (s_, lab) in vcl_src if not lab.startswith(("kind-", "corpus/"))]
+    e2e = [("inject", s_, lab) for s_, lab in fixed_e2e + rng.sample(rest_e2e, min(len(rest_e2e), 600 if thorough else 45))]
+    e2e += [("text", s_, "e2e-text-%d" % i) for i, s_ in enumerate(E2E_TEXT)]
+    if rp and rp.get("e2e") and rp.get("source_hex"):
+        e2e = [(rp["e2e"], bytes.fromhex(rp["source_hex"]), "replay")]
+    env = dict(os.environ, VERIF_PLUGIN_DIR=pdir)
+    erep = par_batch(pimpl, ["e2e %s %s" % (md, s_.hex()) for md, s_, _ in e2e], 6, min_n=8, hang_s=60, env=env)
+    e2e_calls = e2e_expected = e2e_progs = 0
+    e2e_missing = {}
+    for (md, s_, lab), rep in zip(e2e, erep):
+        if rep is None or rep.startswith(("hang", "died", "crash", "badreq")):
+            ctx.violation("linting a program whose statements call a plugin: %s (%s)" % ((rep or "no reply")[:160], lab),
+                          {"mode": "vcl", "e2e": md, "source_hex": s_.hex()[:8000], "reply": rep}, {"kind": "plugin-e2e-" + (rep or "none").split()[0]})
+            continue
+        if rep.startswith("parseerr"):
+            continue
+        mm = _re.match(r"e2e calls (\d+) expected (\d+) extra (\d+) (\[.*\]) missing \[(.*?)\] fails (\d+) (\[.*\]) unreadable \[(.*?)\]$", rep)
+        if not mm:
+            ctx.violation("unreadable e2e reply (%s)" % lab, {"reply": rep[:500]})
+            continue
+        e2e_progs += 1
+        e2e_calls += int(mm.group(1))
+        e2e_expected += int(mm.group(2))
+        if int(mm.group(3)) or int(mm.group(6)):
+            ctx.violation("a plugin started by linter.customLint did not receive the statement it was called for (%s): %s extra answers, %s failed calls"
+                          % (lab, mm.group(3), mm.group(6)),
+                          {"mode": "vcl", "e2e": md, "source_hex": s_.hex()[:8000], "extra": mm.group(4)[:2000], "fails": mm.group(7)[:2000]},
+                          {"kind": "plugin-e2e"})
+        if mm.group(8):
+            ctx.violation("linter.customLint started a plugin on a statement no instantiation of ReadLinterRequest accepts "
+                          "(its type is not in the LintStatement union): %s (%s)" % (", ".join(sorted(set(mm.group(8).split()))), lab),
+                          {"mode": "vcl", "e2e": md, "source_hex": s_.hex()[:8000], "types": mm.group(8)}, {"kind": "plugin-e2e-unreadable"})
+        for item in mm.group(5).split():
+            kk, _, nn = item.rpartition(":")
+            e2e_missing[kk] = e2e_missing.get(kk, 0) + int(nn)
+            if md == "text" or not kk.startswith(E2E_NOT_VISITED):
+                ctx.violation("linter.customLint did not call the plugin for an annotated %s (%s)" % (kk, lab),
+                              {"mode": "vcl", "e2e": md, "source_hex": s_.hex()[:8000], "missing": mm.group(5)}, {"kind": "plugin-e2e-missing"})
+    if e2e_progs and e2e_calls == 0:
+        ctx.violation("no plugin call was observed end to end (falco-verifecho never started)", {"no_failing_input": True, "programs": e2e_progs})
     if not proved and not ctx.violations:
         ctx.violation("proof obligation of C19 no longer checks: " + (ctx.broken or "Props/C19.v"),
                       {"no_failing_input": True, "broken": ctx.broken,
@@ -322,10 +630,15 @@ def run(ctx):
     ctx.samples = [{"source": sources[i][1][:200].decode("utf-8", "replace"), "label": sources[i][2]} for i in (0, len(sources) // 2, len(sources) - 1)]
     ctx.samples += [{"decode_input_hex": h[:120], "kind": k} for h, k in byte_cases[-3:]]
     ctx.coverage.update({
-        "evaluations": len(cases) + len(byte_cases),
-        "distinct_nontrivial": len(nontrivial) + len(set(h for h, _ in byte_cases)),
+        "evaluations": len(cases) + len(byte_cases) + len(singles) + len(pbytes) + e2e_calls,
+        "distinct_nontrivial": len(nontrivial) + len(set(h for h, _ in byte_cases)) + len(singles) + len(pbytes),
         "programs_parsed": len(cases), "programs_rejected_by_parser": parse_fail,
-        "encode_agree": enc_agree, "impl_roundtrip_ok": roundtrip_ok,
+        "encode_agree": enc_agree, "impl_roundtrip_ok": roundtrip_ok, "parser_asts_wf": wf_ok,
+        "plugin_statement_nodes_seen": stmt_nodes, "plugin_single_statements": len(singles), "plugin_encode1_agree": enc1_agree,
+        "plugin_impl_oracle_ok": plug_oracle_ok, "plugin_readrequest_agree": plug_agree, "plugin_kinds": dict(sorted(plug_kinds.items())),
+        "plugin_byte_inputs": len(pbytes), "plugin_byte_agree": plug_bytes_agree, "plugin_byte_outcomes": plug_out,
+        "plugin_instantiations_per_input": len(readers),
+        "e2e_programs": e2e_progs, "e2e_plugin_calls": e2e_calls, "e2e_annotated": e2e_expected, "e2e_not_visited_by_linter": e2e_missing,
         "decode_inputs": len(byte_cases), "decode_agree": dec_agree, "decode_outcomes": outcome,
         "mutation_kinds": mk, "node_kinds": dict(sorted(kinds.items(), key=lambda kv: -kv[1])[:60]),
         "generator_stats": dict(sorted(g.stats.items())),
@@ -334,4 +647,7 @@ def run(ctx):
         level="proof",
         rule="theorems of coq/Props/C19.v over Model/Codec.v (unbounded); correspondence: repository .vcl files + corpus + "
              "grammar-generated programs (distinct = distinct projected AST), and for the decoder: valid encodings, all prefixes "
-             "of a few, seeded truncation/flip/replace/splice/delete/dup/random mutations (distinct = distinct byte string)")
+             "of a few, seeded truncation/flip/replace/splice/delete/dup/random mutations (distinct = distinct byte string); "
+             "plugin path: every statement node (top level and nested) of a sample of those programs, single-statement encodings "
+             "(distinct = distinct projected statement), their prefixes / structural / seeded mutants through all instantiations of "
+             "ReadLinterRequest, and programs linted end to end with a plugin process per statement")
